@@ -1069,14 +1069,18 @@ class ConfigLoader(BaseConfig):
         """
         fcn = self.get_fcn()
         new_params = list(params)
-        for i in new_params:
-            fcn.vm.set_fix(i, unfix=True)
-        all_params = list(fcn.vm.trainable_vars)
-        old_params = [i for i in all_params if i not in new_params]
-        _, _, hess = fcn.nll_grad_hessian()
-        hess = data_to_numpy(hess)
-        for i in new_params:
-            fcn.vm.set_fix(i)
+        freed = []
+        try:
+            for i in new_params:
+                fcn.vm.set_fix(i, unfix=True)
+                freed.append(i)
+            all_params = list(fcn.vm.trainable_vars)
+            old_params = [i for i in all_params if i not in new_params]
+            _, _, hess = fcn.nll_grad_hessian()
+            hess = data_to_numpy(hess)
+        finally:
+            for i in freed:
+                fcn.vm.set_fix(i)
 
         idx_a = np.array([all_params.index(i) for i in old_params])
         idx_b = np.array([all_params.index(i) for i in new_params])
